@@ -203,4 +203,16 @@ theorem C13_meta_line (k v : List Nat) (hk : colon ∉ k) (htk : Trim k) (htv : 
 /-- the hypothesis on the key is needed: a key containing a colon is cut at it -/
 example : parseMeta (metaLine [97, 58, 98] [99]) = some ([97], [98, 58, 99]) := by decide
 
+/-- **C13, one line of the `<scorer>` block**: symbol and values come back as written (no tab inside them) -/
+theorem C13_scorer_line (ch : List Nat) (vals : List (List Nat)) (hc : tab ∉ ch) (hv : ∀ v ∈ vals, tab ∉ v) :
+    readScorerLine (scorerLine ch vals) = (ch, vals) := by
+  unfold readScorerLine scorerLine
+  rw [split_join (ch :: vals) (by simp) (by
+    intro f hf
+    rcases List.mem_cons.mp hf with h | h
+    · rw [h]; exact hc
+    · exact hv f h)]
+
+example : readScorerLine (scorerLine [65] [[49, 46, 48], [45, 50]]) = ([65], [[49, 46, 48], [45, 50]]) := by decide
+
 end Verif.Line
